@@ -82,10 +82,23 @@ pub fn gen_val_of(u: &mut Chooser, t: &T, depth: usize) -> V {
 pub fn gen_map_key(u: &mut Chooser, kt: &T) -> V {
     match kt {
         T::Str => V::Str(u.pick(&FIELD_NAMES).to_string()),
-        T::Int => V::Int(*u.pick(&[0i64, 1, 2, -1, 7, i64::MAX])),
-        T::UInt => V::UInt(*u.pick(&[0u64, 1, 2, 7, u64::MAX])),
+        T::Int => V::Int(*u.pick(&[0i64, 1, 2, -1, 7, i64::MAX, i64::MIN])),
+        T::UInt => V::UInt(*u.pick(&[0u64, 1, 2, 7, u64::MAX, 1 << 63])),
         _ => V::Bool(u.flip()),
     }
+}
+
+/// the key expression of a lookup (`m[k]`, `k in m`, `m.contains(k)`): usually any expression of the map's key
+/// type; for integer keys one in four is a literal of either integer type from the pool the stored keys are
+/// drawn from, so that numerically equal int / uint keys (which are the same key) and keys whose 64-bit
+/// patterns merely coincide (-1 / 2^64-1, i64::MIN / 2^63: different keys) are both asked about
+pub fn gen_key_query(u: &mut Chooser, kt: &T, env: &mut Env, d: usize) -> E {
+    if matches!(kt, T::Int | T::UInt) && u.chance(1, 4) {
+        let other = if *kt == T::Int { T::UInt } else { T::Int };
+        let t = if u.flip() { other } else { kt.clone() };
+        return E::Lit(gen_map_key(u, &t));
+    }
+    gen_e(u, kt, env, d)
 }
 
 #[derive(Clone, Debug, Serialize, Deserialize)]
@@ -369,7 +382,7 @@ pub fn gen_e(u: &mut Chooser, t: &T, env: &mut Env, depth: usize) -> E {
             13 => {
                 let kt = gen_key_type(u);
                 let vt = simple_type(u);
-                E::bin(Op::In, gen_e(u, &kt, env, d), gen_e(u, &T::Map(Box::new(kt.clone()), Box::new(vt)), env, d))
+                E::bin(Op::In, gen_key_query(u, &kt, env, d), gen_e(u, &T::Map(Box::new(kt.clone()), Box::new(vt)), env, d))
             }
             14 => {
                 let vt = simple_type(u);
@@ -426,7 +439,7 @@ pub fn gen_e(u: &mut Chooser, t: &T, env: &mut Env, depth: usize) -> E {
                 let kt = gen_key_type(u);
                 let vt = simple_type(u);
                 let m = gen_e(u, &T::Map(Box::new(kt.clone()), Box::new(vt)), env, d);
-                E::mcall(m, "contains", vec![gen_e(u, &kt, env, d)])
+                E::mcall(m, "contains", vec![gen_key_query(u, &kt, env, d)])
             }
         },
         T::Int | T::UInt | T::Dbl => match u.below(16) {
@@ -487,7 +500,7 @@ pub fn gen_e(u: &mut Chooser, t: &T, env: &mut Env, depth: usize) -> E {
             12 => E::Index(b(gen_e(u, &T::List(Box::new(t.clone())), env, d)), b(gen_index(u, env, d))),
             13 => {
                 let kt = gen_key_type(u);
-                E::Index(b(gen_e(u, &T::Map(Box::new(kt.clone()), Box::new(t.clone())), env, d)), b(gen_e(u, &kt, env, 0)))
+                E::Index(b(gen_e(u, &T::Map(Box::new(kt.clone()), Box::new(t.clone())), env, d)), b(gen_key_query(u, &kt, env, 0)))
             }
             14 => {
                 let f = *u.pick(&["max", "min"]);
@@ -521,7 +534,7 @@ pub fn gen_e(u: &mut Chooser, t: &T, env: &mut Env, depth: usize) -> E {
             6 => E::Index(b(gen_e(u, &T::List(Box::new(T::Str)), env, d)), b(gen_index(u, env, d))),
             7 => {
                 let kt = gen_key_type(u);
-                E::Index(b(gen_e(u, &T::Map(Box::new(kt.clone()), Box::new(T::Str)), env, d)), b(gen_e(u, &kt, env, 0)))
+                E::Index(b(gen_e(u, &T::Map(Box::new(kt.clone()), Box::new(T::Str)), env, d)), b(gen_key_query(u, &kt, env, 0)))
             }
             _ => E::Select(b(gen_e(u, &T::Map(Box::new(T::Str), Box::new(T::Str)), env, d)), u.pick(&FIELD_NAMES).to_string()),
         },
